@@ -3,7 +3,6 @@ package dns
 import (
 	"crypto/sha1"
 	"encoding/hex"
-	"strings"
 )
 
 // HashName hashes a string (label) according to RFC 5155. It returns the hashed string in uppercase.
@@ -55,13 +54,13 @@ func (rr *NSEC3) Cover(name string) bool {
 	if len(labelIndices) < 2 {
 		return false
 	}
-	ownerHash := strings.ToUpper(owner[:labelIndices[1]-1])
+	ownerHash := asciiUpper(owner[:labelIndices[1]-1]) // octet-wise: a rune-wise mapping turns other octets into base32hex letters
 	ownerZone := owner[labelIndices[1]:]
 	if !IsSubDomain(ownerZone, name) { // name is outside owner zone (names compare octet-wise, ignoring ASCII case)
 		return false
 	}
 
-	nextHash := strings.ToUpper(rr.NextDomain) // as parsed from text it may be in either case
+	nextHash := asciiUpper(rr.NextDomain) // as parsed from text it may be in either case
 
 	// if empty interval found, try cover wildcard hashes so nameHash shouldn't match with ownerHash
 	if ownerHash == nextHash && nameHash != ownerHash { // empty interval
@@ -90,7 +89,7 @@ func (rr *NSEC3) Match(name string) bool {
 	if len(labelIndices) < 2 {
 		return false
 	}
-	ownerHash := strings.ToUpper(owner[:labelIndices[1]-1])
+	ownerHash := asciiUpper(owner[:labelIndices[1]-1]) // octet-wise: a rune-wise mapping turns other octets into base32hex letters
 	ownerZone := owner[labelIndices[1]:]
 	if !IsSubDomain(ownerZone, name) { // name is outside owner zone (names compare octet-wise, ignoring ASCII case)
 		return false
